@@ -62,6 +62,22 @@ theorem result_mergeable (m : Metric) (s : FreqState Str) : m.mergeable.result s
 theorem ofBatch_mergeable (m : Metric) (xs : List Str) : m.mergeable.ofBatch xs = m.batch xs := by
   rw [mergeable_eq]
 
+/-- sharding invariance, for the raw functions -/
+theorem sharded_result_raw (m : Metric) (shards : List (List (List Str))) :
+    m.mergeable.result (m.mergeable.sharded shards)
+      = m.result (m.batch (shards.map List.flatten).flatten) := by
+  have h := (lawful m).sharded_result shards
+  simp only [Metric.mergeableW] at h
+  rw [result_mergeable, ← val_sharded]
+  exact h
+
+/-- `AggregateFn.__call__`: a fresh accumulator fed one batch reports the batch state's result -/
+theorem call_result_raw (m : Metric) (texts : List Str) :
+    m.mergeable.result (m.mergeable.add m.mergeable.empty texts) = m.result (m.batch texts) := by
+  rw [mergeable_eq]
+  exact m.result_congr (FreqState.wf_merge _ FreqState.wf_empty) (wf_batch m texts)
+    (FreqState.merge_empty_left _ (wf_batch m texts))
+
 /-! ## the batch state only depends on the multiset of rows -/
 
 theorem batch_perm (m : Metric) {xs ys : List Str} (h : xs.Perm ys) : (m.batch xs).Obs (m.batch ys) := by
